@@ -25,7 +25,9 @@ from harness.translate import programs as trp
 from harness.translate import status as trs
 
 THEOREMS = ["table_pollClaim", "table_runOk", "table_runRetry", "table_killReroute", "table_recoverPending", "table_client",
-            "operations_end_recoverable", "recoverable_leads_to_final", "unprotected_is_stuck"]
+            "operations_end_recoverable", "recoverable_leads_to_final", "unprotected_is_stuck",
+            # Props/C03Wakeup.lean: re-queueing (status, then push) against any number of concurrent polls never loses the message
+            "inv_step", "status_then_push_never_loses", "status_then_push_reachable", "push_then_status_loses", "programs_write_status_before_push"]
 
 RELEVANT = ("register", "transition", "push", "pop")
 
